@@ -47,6 +47,10 @@ def _oracle_net(chk, r, a, head):
         key = 'C01:unsupported:' + unsup
     else:
         key = None
+    if (a.get('reimport_error') or a.get('reimport_diff')) and not key:
+        chk.violation('C01:reimported-export:' + ('raises' if a.get('reimport_error') else 'eval-vs-export'),
+                      'the exported network imported into PIT again, pruned and exported: %s'
+                      % (a.get('reimport_error') or a.get('reimport_diff')), dict(cid, kind='net'))
     if a.get('export_error'):
         chk.violation(key or ('C01:export-raises' + (':fold_bn' if r['spec']['fold_bn'] else '')),
                       'export()/exported forward raises: ' + a['export_error'], dict(cid, kind='net'))
